@@ -236,6 +236,14 @@ impl Check for C05 {
             let alpha = crate::checks::c19::group_alphabet(&o);
             out.push(serde_json::to_value(Unit { opts: o, len: tier.pick(4, 5), family: fam, alpha, no_ledger: true, removal: true }).unwrap());
         }
+        // non-ASCII short names: clusters mixing them with declared and undeclared letters (byte
+        // offsets and character counts differ inside the item)
+        for tail in [Tail::None, fam::pos(&[PosKind::Many]), fam::pos(&[PosKind::Opt])] {
+            let mk = |c: char, kind: Kind| Named { names: Names::short(c), kind, hidden: false, ty: Ty::Os, adjacent: false, guarded: false };
+            let l = fam::leaf(vec![mk('é', Kind::Switch), mk('a', Kind::Switch), mk('ж', Kind::Count)], tail);
+            let alpha = toks(&["-é", "-a", "-ж", "-éa", "-aж", "-éx", "-aéx", "-жжx", "-xé", "w", "--", "-z"]);
+            out.push(serde_json::to_value(Unit { opts: l.to_opts(), len: tier.pick(4, 5), family: "loose-non-ascii-shorts".into(), alpha, no_ledger: true, removal: true }).unwrap());
+        }
         for (o, alpha) in loose_groups() {
             out.push(serde_json::to_value(Unit { opts: o, len: tier.pick(4, 5), family: "loose-group".into(), alpha, no_ledger: true, removal: true }).unwrap());
         }
@@ -287,7 +295,7 @@ impl Check for C05 {
         }
     }
     fn rule(&self) -> String {
-        "definitions = shape family (12 field kinds, ordered tuples x 4 tails), conventional family, adjacent group / adjacent command shapes, loose (non-adjacent) optional / repeated groups whose later member gives up after the first consumed; accepted vectors are discovered by walking the whole token tree; for EVERY accepted vector: ledger (multiset of value leaves == multiset of value items of the line) and every single insertion at every position left of `--` of: -z, --zz, --flag=x / -f=x / --flag= / -f= for each declared flag, a second copy of each present single-use option, a surplus word when the positional capacity is finite and full -> each must be an stderr failure; and removal of any single item (other than `--`) must change the outcome (the item was used); evaluation = one run; non-trivial = accepted non-empty vector".into()
+        "definitions = shape family (12 field kinds, ordered tuples x 4 tails), conventional family, adjacent group / adjacent command shapes, loose (non-adjacent) optional / repeated groups whose later member gives up after the first consumed, non-ASCII short flags in clusters with declared and undeclared letters; accepted vectors are discovered by walking the whole token tree; for EVERY accepted vector: ledger (multiset of value leaves == multiset of value items of the line) and every single insertion at every position left of `--` of: -z, --zz, --flag=x / -f=x / --flag= / -f= for each declared flag, a second copy of each present single-use option, a surplus word when the positional capacity is finite and full -> each must be an stderr failure; and removal of any single item (other than `--`) must change the outcome (the item was used); evaluation = one run; non-trivial = accepted non-empty vector".into()
     }
     fn bounds(&self, tier: Tier) -> Value {
         json!({"fields_per_level": tier.pick("<=2 + tail", "<=3 + tail"), "base_vector_length": tier.pick("4 (shapes, groups), 3 (conventional)", "5 / 4"), "insertions": "one item, every position"})
